@@ -62,6 +62,19 @@ harness!(c20_total_rr, 9, |s| {
     cover!(r.is_ok(), "Ok");
 });
 
+// bw: call only (not registered in any check).  Even without an evaluator the query has 13 M
+// variables / 149 M clauses and exhausts 26 GB within 6 minutes: bw::rta_subchain is out of
+// reach for this engine at any shape tried (DESIGN.md section 8).
+harness!(c20_total_bw, 6, |s| {
+    use crate::props::c07::{call_bw, BQ};
+    let w = any_workload(s, &BQ);
+    let limit = s.from(1, 3);
+    assume(limit <= 3);
+    let r = call_bw(&Dedicated::new(), &w, &[1], limit);
+    cover!(r.is_ok(), "Ok");
+    cover!(r.is_err(), "Err");
+});
+
 // ---- known finding c20-prefix-rbf: an RBF over an ArrivalCurvePrefix (whose steps_iter
 // yields 0 first, finding c11-prefix-yields-zero) makes step_offsets underflow: a panic in
 // checked builds, Ok(0) in release builds
@@ -109,7 +122,7 @@ harness!(c20_from_trace_total_2, 8, |s| { from_trace_total(s, 2); });
 
 pub fn register(t: &mut Table) {
     reg!(t;
-        c20_total_fp, c20_total_fifo, c20_total_ros_timer_constrained, c20_total_ros_chain_dedicated, c20_total_rr,
+        c20_total_fp, c20_total_fifo, c20_total_ros_timer_constrained, c20_total_ros_chain_dedicated, c20_total_rr, c20_total_bw,
         c20_prefix_rbf_b, c20_all_zero_dmin_b, c20_from_trace_total_1, c20_from_trace_total_2,
     );
 }
